@@ -167,7 +167,12 @@ def check_for_each(ctx, F, rule, name, mutable, body, paths, vec, tf):
 
 
 def closure_paths(ctx, F, term):
-    cb = F.bodies.get(term[2]) if term and term[0] == "agg" and term[1] == "closure" else None
+    """paths of a closure literal or of a workspace fn item; the first explicit parameter is term-dependent (FIRST)"""
+    cb = None
+    if term and term[0] == "agg" and term[1] == "closure":
+        cb = F.bodies.get(term[2])
+    elif term and term[0] == "fn":
+        cb = F.bodies.get(term[1])
     if cb is None:
         return None, None
     eng = pse.Engine(F, inline=lambda fn, b: False)
@@ -176,12 +181,16 @@ def closure_paths(ctx, F, term):
     return cb, ps
 
 
+def first_param(term):
+    return 1 if term and term[0] == "fn" else 2
+
+
 def natural_comparator(ctx, F, rule, inst, term, site):
     """comparator closure = natural ascending order of (a, b): partial_cmp(a, b).unwrap_or(_) or total_cmp(a, b)"""
     cb, ps = closure_paths(ctx, F, term)
     if cb is None:
-        ctx.ob(rule, inst + "/comparator", False, "comparator is not a closure literal: %s" % show(term), site,
-               what="comparator-unknown")
+        ctx.ob(rule, inst + "/comparator", False, "comparator is neither a closure literal nor a workspace function: %s"
+               % show(term), site, what="comparator-unknown")
         return
     ok = True
     seen = None
@@ -191,7 +200,8 @@ def natural_comparator(ctx, F, rule, inst, term, site):
             ok = False
             continue
         d = cs[0]["descs"]
-        a, b = ("deref", ("param", 2)), ("deref", ("param", 3))
+        k = first_param(term)
+        a, b = ("deref", ("param", k)), ("deref", ("param", k + 1))
         seen = [show(x) for x in d]
         if tuple(d) not in ((("&", a), ("&", b)), (("&", ("deref", a)), ("&", ("deref", b))), (a, b)):
             ok = False
@@ -201,17 +211,22 @@ def natural_comparator(ctx, F, rule, inst, term, site):
 
 
 def mapper_is(ctx, F, rule, inst, term, method, site):
+    if term and term[0] == "fn" and term[1] == TL + "::" + method:
+        # the trait method itself used as the mapper (`.map(T::%s)`)
+        ctx.ob(rule, inst + "/mapper", True, "maps with the path Timeline::%s" % method, site)
+        return
     cb, ps = closure_paths(ctx, F, term)
     if cb is None:
-        ctx.ob(rule, inst + "/mapper", False, "mapper is not a closure literal: %s" % show(term), site,
-               what="mapper-unknown")
+        ctx.ob(rule, inst + "/mapper", False, "mapper is neither a closure literal nor Timeline::%s: %s" % (method, show(term)),
+               site, what="mapper-unknown")
         return
     ok = len(ps) == 1
     got = None
     if ok:
         r = ps[0].ret
         got = show(r)
-        ok = r[0] == "call" and r[1] == TL + "::" + method and r[2] == (("&", ("deref", ("param", 2))),)
+        k = first_param(term)
+        ok = r[0] == "call" and r[1] == TL + "::" + method and r[2] in ((("&", ("deref", ("param", k))),), (("param", k),))
     ctx.ob(rule, inst + "/mapper", ok,
            "aggregate %s must map every component with Timeline::%s; maps with %s" % (method, method, got),
            cb["span"], what="mapper-wrong-getter")
@@ -294,9 +309,72 @@ def check_cycle(ctx, F, rule, adt=MT):
             ctx.ob(rule, inst + "/common-or-none", okc,
                    "the reducer must keep the value when both agree and yield None otherwise", body["span"],
                    what="cycle-reducer-wrong")
+    if not ok and _cycle_loop_form(ctx, F, rule, inst, body, paths, vec):
+        return
     if not ok:
         ctx.ob(rule, inst + "/shape", False, "cycle_duration must be reduce(common-or-None).flatten(); summary: %s"
                % [show(p.ret) for p in paths], body["span"], what="cycle-shape")
+
+
+def _peel_after(t):
+    while t[0] == "after":
+        t = t[3]
+    return t
+
+
+def _cycle_loop_form(ctx, F, rule, inst, body, paths, vec):
+    """the same fold written as a loop:  common = first?;  for d in rest { if common != d { common = None } }  common
+    (recognised only in this shape; every step is checked, so that the loop computes common-or-None over all components)"""
+    rets = [p for p in paths if p.outcome == "return"]
+    loops = [p for p in rets if p.ret[0] == "loop" and p.ret[2][0] == "local"]
+    if len(loops) != 1:
+        return False
+    R = loops[0].ret
+    hdr, l, first_payload = R[1], R[2][1], R[3]
+    if not (first_payload[0] == "field" and first_payload[1][0] == "variant" and first_payload[1][2] == "Some"):
+        return False
+    first = first_payload[1][1]
+    if not (first[0] == "call" and first[1].endswith("Iterator>::next") or first[1].endswith("Iterator::next")):
+        return False
+    recv = first[2][0]
+    SRC = recv[1] if recv[0] == "&mut" else None
+    okm = SRC is not None and SRC[0] == "call" and SRC[1].endswith("Iterator::map") and ordered_source(SRC[2][0], vec)
+    ctx.ob(rule, inst + "/all-components", bool(okm), "cycle_duration must range over all components (loop form)",
+           body["span"], what="fold-not-over-all-components")
+    if not okm:
+        return True
+    mapper_is(ctx, F, rule, inst, SRC[2][1], "cycle_duration", body["span"])
+    okc = True
+    n_iter = 0
+    for p in paths:
+        nx = [e for e in p.events if e["kind"] == "call" and e["fn"].get("name") == "next"]
+        if p in rets:
+            # empty list -> None; otherwise the loop variable is returned as it is
+            if p.ret[0] == "agg":
+                okc = okc and p.ret[3] == "None" and len(nx) == 1
+            continue
+        if p.outcome != "backedge" or len(nx) != 2:
+            okc = False
+            continue
+        lv = nx[1]["descs"][0]
+        same_iter = lv[0] == "&mut" and lv[1][0] == "loop" and lv[1][1] == hdr and _peel_after(lv[1][3]) == SRC
+        item = ("field", ("variant", nx[1]["result"], "Some"), "0")
+        dec = None
+        for (t, v, s_) in p.conds:
+            if t[0] == "bin" and t[1] in ("Eq", "Ne") and {t[2], t[3]} == {R, item}:
+                dec = (v == 1) == (t[1] == "Eq")       # True: they agree
+        fin = p.store.get(("L", 0, l))
+        n_iter += 1
+        if dec is True:
+            okc = okc and same_iter and (fin is None or fin == R)
+        elif dec is False:
+            okc = okc and same_iter and fin is not None and fin[0] == "agg" and fin[3] == "None"
+        else:
+            okc = False
+    ctx.ob(rule, inst + "/common-or-none", okc and n_iter == 2,
+           "the loop must keep the common value while every further component agrees with it and yield None otherwise",
+           body["span"], what="cycle-reducer-wrong")
+    return True
 
 
 def check_repeat_order(ctx, F, rule):
@@ -345,8 +423,10 @@ def check_wrapping(ctx, F, rule):
     if ok:
         r = ps[0].ret
         v = dict(r[4]).get(tf) if r[0] == "agg" else None
-        ok = v is not None and v[0] == "call" and v[1].endswith("Iterator::collect") and v[2][0][0] == "call" and \
-            v[2][0][1].endswith("IntoIterator::into_iter") and v[2][0][2] == (("param", 1),)
+        ok = v is not None and v[0] == "call" and (
+            (v[1].endswith("Iterator::collect") and v[2][0][0] == "call" and
+             v[2][0][1].endswith("IntoIterator::into_iter") and v[2][0][2] == (("param", 1),)) or
+            (v[1].endswith("FromIterator<T>>::from_iter") and v[2] == (("param", 1),)))
     ctx.ob(rule, "MergedTimeline::of", ok, "of() must collect its argument in order; summary %s"
            % [show(p.ret) for p in ps], of["span"], what="of-not-in-order")
     fr = F.one(crate="mina_core", name="from", impl_self_adt=MT, impl_trait="core::convert::From")
@@ -371,8 +451,10 @@ def check_wrapping(ctx, F, rule):
     if ok:
         r = ps[0].ret
         vec = ("field", ("deref", ("param", 1)), tf)
-        ok = r[0] == "call" and r[1].endswith("MergedTimeline::<T>::of") and r[2][0][0] == "call" and \
-            r[2][0][1].endswith("Iterator::cloned") and ordered_source(r[2][0][2][0], vec)
+        # of(iter(&vec).cloned())  or  Self { vec: vec.clone() }  (Vec::clone clones every element in order)
+        ok = (r[0] == "call" and r[1].endswith("MergedTimeline::<T>::of") and r[2][0][0] == "call" and
+              r[2][0][1].endswith("Iterator::cloned") and ordered_source(r[2][0][2][0], vec)) or \
+            (r[0] == "agg" and r[1] == "adt" and r[2] == MT and dict(r[4]).get(tf) == vec)
     ctx.ob(rule, "MergedTimeline::clone", ok, "clone must clone every component in order; summary %s"
            % [show(p.ret) for p in ps], cl["span"], what="clone-not-ordered")
 
